@@ -6,6 +6,7 @@ import (
 	"go/token"
 	"go/types"
 	"math/big"
+	"os"
 	"strings"
 	"sync"
 
@@ -145,6 +146,15 @@ func (in *Interp) ensureInit(p *ssa.Package) {
 	}
 	in.inited[p] = 1
 	path := p.Pkg.Path()
+	if os.Getenv("GOSMT_DEBUGINIT") != "" && strings.Contains(path, "marketstore") {
+		fmt.Fprintf(os.Stderr, "INIT start %s (stack top %v)\n", path, func() string {
+			if len(in.stack) == 0 {
+				return "-"
+			}
+			return in.stack[len(in.stack)-1].fn.String()
+		}())
+		defer fmt.Fprintf(os.Stderr, "INIT end %s\n", path)
+	}
 	// allocate all globals first
 	for _, m := range p.Members {
 		if g, ok := m.(*ssa.Global); ok {
@@ -157,6 +167,7 @@ func (in *Interp) ensureInit(p *ssa.Package) {
 	if !skipInitPkg(path) {
 		if initFn := p.Func("init"); initFn != nil && initFn.Blocks != nil {
 			saved := in.stack
+			in.extra["forceinit"] = initFn
 			_, ip := in.callFn(initFn, nil, nil)
 			in.stack = saved
 			if ip != nil {
@@ -211,9 +222,11 @@ func (in *Interp) callFn(fn *ssa.Function, args []Value, env []Value) (Value, *i
 			return zeroResults(in, fn), nil
 		}
 	}
-	if fn.Name() == "init" && fn.Pkg != nil && fn.Signature.Recv() == nil && len(in.stack) > 0 && fn.Synthetic != "" {
+	if in.extra["forceinit"] == fn {
+		delete(in.extra, "forceinit")
+	} else if fn.Name() == "init" && fn.Pkg != nil && fn.Signature.Recv() == nil && len(in.stack) > 0 && fn.Synthetic != "" {
 		// a package initialiser invoked from another package's init: run lazily instead
-		if in.stack[len(in.stack)-1].fn.Name() == "init" && in.stack[len(in.stack)-1].fn.Pkg != fn.Pkg {
+		if top := in.stack[len(in.stack)-1].fn; top.Name() == "init" && top.Signature.Recv() == nil && top.Pkg != fn.Pkg {
 			return nil, nil
 		}
 	}
